@@ -344,10 +344,17 @@ def wfChecks : List (String × (PkgG → Option String)) := [
   ("ct-override-unique", fun g => (firstDup (g.overrides.map (·.1))).map fun p => s!"two Override elements for {ls p}"),
   ("ct-default-unique", fun g => (firstDup (g.defaults.map fun d => lower d.1)).map fun p => s!"two Default elements for extension {ls p}"),
   ("ct-cover", fun g => (g.parts.find? fun p => p != ctName && (partCT g p).isNone).map
-      fun p => s!"part {ls p} has no content type"),
+      fun p =>
+        -- is the part the target of a relationship that an existing source part actually uses (a live part), or a leftover?
+        let referenced := g.rels.any fun (rp, r) => r.mode != sl "External" &&
+          (match relsSource rp with
+           | some src => (src.isEmpty || g.parts.contains src) && resolveTarget src r.target == p &&
+                          (src.isEmpty || g.rids.contains (src, r.id))   -- and the relationship is used inside the source
+           | none => false)
+        s!"part {ls p} has no content type ({if referenced then "referenced" else "unreferenced"})"),
   ("rel-id-unique", fun g => first? (g.rels.map (·.1)).eraseDups fun rp =>
       (firstDup ((relsOf g rp).map (·.id))).map fun i => s!"{ls rp}: duplicate relationship id {ls i}"),
-  ("rel-target", fun g => (g.rels.find? fun (rp, r) => r.mode != sl "External" &&
+  ("rel-target", fun g => (g.rels.find? fun (rp, r) => r.mode != sl "External" && r.target.head? != some '#' &&
         (match relsSource rp with
          | some src => !g.parts.contains (resolveTarget src r.target)
          | none => true)).map fun (rp, r) => s!"{ls rp}: {ls r.id} target {ls r.target} does not resolve to a part"),
